@@ -71,7 +71,10 @@ func vTrainSet(dim, which int) [][]float32 {
 }
 
 // New constructs (and trains) an index of the configured kind.
-func (c vVecCfg) New() (VectorIndex, error) {
+func (c vVecCfg) New() (VectorIndex, error) { return c.NewWith(nil) }
+
+// NewWith is New with an explicit training set (nil = the configured fixed set).
+func (c vVecCfg) NewWith(train [][]float32) (VectorIndex, error) {
 	var idx VectorIndex
 	var err error
 	switch c.Kind {
@@ -92,7 +95,10 @@ func (c vVecCfg) New() (VectorIndex, error) {
 		return nil, err
 	}
 	if c.Kind == "ivf" || c.Kind == "pq" || c.Kind == "ivfpq" {
-		ts := vTrainSet(c.Dim, c.Train)
+		ts := train
+		if ts == nil {
+			ts = vTrainSet(c.Dim, c.Train)
+		}
 		nodes := make([]VectorNode, len(ts))
 		for i, v := range ts {
 			nodes[i] = *NewVectorNodeWithID(uint32(1000+i), vCopyVec(v))
@@ -212,15 +218,18 @@ func vStoredVector(idx VectorIndex, id uint32) []float32 {
 // ---------------------------------------------------------------------------
 
 type vKindSys struct {
-	c    *vCtx
-	cfg  vVecCfg
-	cfgS string
-	ids  []uint32
-	vals [][]float32
-	qs   []vVecQuery
-	idx  VectorIndex
-	m    *vVecModel
-	lvls int // number of non-zero hnsw levels used so far
+	train   [][]float32                   // explicit training set (nil = cfg.Train)
+	hook    func(s *vKindSys, h []string) // extra per-state checks (C13, C14)
+	noMulti bool
+	c       *vCtx
+	cfg     vVecCfg
+	cfgS    string
+	ids     []uint32
+	vals    [][]float32
+	qs      []vVecQuery
+	idx     VectorIndex
+	m       *vVecModel
+	lvls    int // number of non-zero hnsw levels used so far
 }
 
 func newKindSys(c *vCtx, cfg vVecCfg, nids int) *vKindSys {
@@ -266,7 +275,7 @@ func newKindSys(c *vCtx, cfg vVecCfg, nids int) *vKindSys {
 }
 
 func (s *vKindSys) Reset() {
-	idx, err := s.cfg.New()
+	idx, err := s.cfg.NewWith(s.train)
 	if err != nil {
 		panic(fmt.Sprintf("%s: %v", s.cfgS, err))
 	}
@@ -423,8 +432,13 @@ func (s *vKindSys) observe(h []string) {
 		}
 		s.c.Outcome(fmt.Sprint(vResIDs(res)))
 	}
-	s.observeNodes(h)
-	s.observeMulti(h)
+	if !s.noMulti {
+		s.observeNodes(h)
+		s.observeMulti(h)
+	}
+	if s.hook != nil {
+		s.hook(s, h)
+	}
 }
 
 func vCauseVec(m *vVecModel, res []VectorResult) string {
